@@ -195,7 +195,9 @@ Proof.
           { unfold move_end. destruct (g_ends _ G n1 n12 e1 ed1 Hsx E1) as [[X Y]|[X Y]]; rewrite X, Y.
             -- rewrite Nat.eqb_refl. cbn [hright]. destruct (Nat.eqb_spec n12 n2); [congruence|]. destruct (Nat.eqb_spec n12 n1); [congruence|reflexivity].
             -- destruct (Nat.eqb_spec n12 n1) as [E0|_]; [congruence|]. cbn [hright]. rewrite !Nat.eqb_refl. reflexivity. }
-          rewrite Fl. destruct (Nat.eqb (hright ed1) n1); [|reflexivity]. unfold flip. cbn [hleft hright hinfo]. apply hedge_eta. }
+          assert (Fl2 : Nat.eqb (hright (move_end ed2 n2 n1)) n1 = false).
+          { unfold move_end. rewrite Hl2, Nat.eqb_refl. cbn [hright]. rewrite Hr2. apply Nat.eqb_neq. exact Nymx. }
+          rewrite Fl, Fl2, orb_false_r. destruct (Nat.eqb (hright ed1) n1); [|reflexivity]. unfold flip. cbn [hleft hright hinfo]. apply hedge_eta. }
         rewrite (nd_edges _ _ _ _ _ _ _ _ _ _ _ _ _ _ _ _ _ _ _ _ _ D).
         rewrite (proj2 (Nat.eqb_neq _ _) Z1), (proj2 (Nat.eqb_neq _ _) Z2), (proj2 (Nat.eqb_neq _ _) Z3). reflexivity.
       * rewrite (nd_root _ _ _ _ _ _ _ _ _ _ _ _ _ _ _ _ _ _ _ _ _ DU). exact (nd_root _ _ _ _ _ _ _ _ _ _ _ _ _ _ _ _ _ _ _ _ _ D).
